@@ -12,6 +12,11 @@ CHECKS = {
          "Every sequence of move/set-as-oldest/reset operations to the stated depth, and every reachable canonical ring state (fixpoint, so sequences of any length) for capacities 1..6 (8 thorough), with all four observers compared with a plain-list model after every step. Exhaustive within those bounds; right level because the ring's state space is tiny and closed.",
          "Trusts the list model in harness/checks/c19.go (transcribed from the property statement) and, for the fixpoint only, that ring slots older than 2*cap+2 tags are unobservable (tree mode does not rely on it).",
          "DESIGN.md §4 C19"),
+ "C20": ("A-sequential-explorer",
+         "exhaustive enumeration of (message, delay) sequences on the real LogLimiter with an owned clock, reference-model oracle",
+         "Every sequence of (message, inter-arrival delay) pairs up to length 5 (6 thorough) over a boundary alphabet (interval-1ns, interval, interval+1ns, 0, 1ns, 3*interval), via Print, Printf and alternating, compared step by step with the statement's reference limiter; plus the limiter as wired into a real MotionProcessor (recurring refusal over 3.5 min of injected time at six frame periods). Exhaustive over that alphabet and length.",
+         "Messages and delays outside the alphabet are not explored; the clock is injected through the limiter's only func() time.Time field (found by type); output captured from the standard logger.",
+         "DESIGN.md §4 C20"),
 }
 NOT_BUILT = "check not built yet (work in progress)"
 
